@@ -63,7 +63,7 @@ package server
 //@ axiom nsIndex_def: forall i int :: i >= 0 ==> nsIndex("ns" + itoa(i)) == i
 
 //@ unit (*NamespaceManager).AssertPrefixMappingForExpansion
-//@   prop C13
+//@   prop C13 C14
 //@   requires [callers-hold-no-lock-at-or-above-the-namespace-lock] forall l int :: has($held, l) ==> lockLevel(l) < 5
 //@   requires namespaceManager != nil && !has($held, addrOf(namespaceManager.lock))
 //@   requires-inv [inv-maps] namespaceManager.prefixToExpansionMapping != nil && namespaceManager.expansionToPrefixMapping != nil && namespaceManager.prefixToExpansionMapping != namespaceManager.expansionToPrefixMapping
@@ -87,6 +87,7 @@ package server
 //@     assert [prefix-shape] prefix == "ns" + itoa(nsIndex(prefix))
 //@     use itoa_digits(nsIndex(prefix))
 //@   at call StoreObject#1 before
+//@     assert [C14:namespace-state-written-under-the-key-open-reads] id == "namespacestate" && collection == NamespacesIndex
 //@     assert [len-grows] len(namespaceManager.prefixToExpansionMapping) == old(len(namespaceManager.prefixToExpansionMapping)) + 1
 //@     assert [new-present] has(namespaceManager.prefixToExpansionMapping, "ns" + itoa(old(len(namespaceManager.prefixToExpansionMapping))))
 //@     assert [old-kept] forall p string :: old(has(namespaceManager.prefixToExpansionMapping, p)) ==> has(namespaceManager.prefixToExpansionMapping, p)
@@ -523,7 +524,7 @@ package server
 //@   pure
 
 //@ unit (*DsManager).DeleteDataset
-//@   prop C07
+//@   prop C07 C14
 //@   ghost idG int = 0
 //@   requires dsm != nil && dsm.store != nil && !has($held, addrOf(dsm.lock))
 //@   requires [callers-hold-no-lock] forall l int :: has($held, l) ==> lockLevel(l) < 1
@@ -534,6 +535,7 @@ package server
 //@   at call GetDataset#1
 //@     ghost idG := $result.InternalID
 //@   at call StoreObject#1 before
+//@     assert [C14:deleted-set-written-under-the-key-open-reads] id == "deleteddatasets" && collection == StoreMetaIndex
 //@     assert [C07:persisted-set-contains-this-dataset-and-all-earlier-ones] has(newDeletedDatasets, existingDataset.InternalID) && (forall k uint32 :: has(dsm.store.deletedDatasets, k) ==> has(newDeletedDatasets, k))
 //@   at call deleteValue#1 before
 //@     assert [C07:deleted-set-persisted-before-the-record-is-removed] has($persisted, "deleteddatasets") && has(dsm.store.deletedDatasets, existingDataset.InternalID)
@@ -626,7 +628,7 @@ package server
 //@     assert [C07:rename-writes-the-new-record-in-the-same-transaction] key == newKey && val == newValue && $arg0 == txn
 
 //@ unit (*DsManager).CreateDataset
-//@   prop C07 C04 C19
+//@   prop C07 C04 C19 C14
 //@   ghost idPersistedG bool = false
 //@   ghost freshG int = 0
 //@   requires dsm != nil && dsm.store != nil && !has($held, addrOf(dsm.lock)) && dsm.store.nextDatasetID < 4294967295
@@ -637,6 +639,7 @@ package server
 //@   at call storeValue#1
 //@     ghost idPersistedG := $result == nil
 //@   at call storeValue#1 before
+//@     assert [C14:next-dataset-id-written-under-the-key-open-reads] arrOf(key) == arrOf(StoreNextDatasetIDBytes) && len(key) == len(StoreNextDatasetIDBytes) && len(value) == 4
 //@     assert [C07,C04:persisted-next-id-is-above-the-new-datasets-id] encBE32(value, 0) == freshG + 1 && ds.InternalID == freshG && dsm.store.nextDatasetID == freshG + 1
 //@   at call storeValue#2 before
 //@     assert [C04:next-id-persisted-before-the-dataset-record] idPersistedG && ds.InternalID == freshG
@@ -826,3 +829,31 @@ package server
 //@   loop $1:7
 //@     invariant -1 <= $i && $i < len(from.Datasets)
 //@     invariant datasetIncluded <==> (len(from.Datasets) == 0 || (exists k int :: 0 <= k && k <= $i && from.Datasets[k] == datasetID))
+
+// ---------------------------------------------------------------------------
+// C14: Open reloads every registry from the key its mutators persist it under
+
+//@ assumed (*Store).readValue
+//@   pure
+//@ assumed (*Store).loadDatasets
+//@   preserves Store.*, NamespaceManager.*
+//@ assumed badger.DefaultOptions
+//@   pure
+//@ assumed badger.Open
+//@   pure
+//@ assumed os.WriteFile
+//@   pure
+//@ assumed (*Store).GetObject
+//@   preserves Store.database, Store.NamespaceManager, Store.nextDatasetID, Store.storeLocation, NamespaceManager.lock
+
+//@ unit (*Store).Open
+//@   prop C14
+//@   opt single-threaded
+//@   requires s != nil && s.NamespaceManager != nil && !has($held, addrOf(s.NamespaceManager.lock))
+//@   requires [callers-hold-no-lock] forall l int :: has($held, l) ==> lockLevel(l) < 1
+//@   at call readValue#1 before
+//@     assert [C14:next-dataset-id-read-from-the-key-create-writes] arrOf(key) == arrOf(StoreNextDatasetIDBytes) && len(key) == len(StoreNextDatasetIDBytes)
+//@   at call GetObject#1 before
+//@     assert [C14:namespace-state-read-from-the-key-assert-writes] id == "namespacestate" && collection == NamespacesIndex
+//@   at call GetObject#2 before
+//@     assert [C14:deleted-set-read-from-the-key-delete-writes] id == "deleteddatasets" && collection == StoreMetaIndex
